@@ -107,6 +107,37 @@ def _no_alias(result, sources, what):
             raise Violation('%s shares memory with its argument (the two representations are not independent)' % what)
 
 
+def _bits_equal(a, b):
+    """same shape/dtype assumed; bit-wise, except for (c)longdouble whose 16-byte items contain unused padding bytes"""
+    if a.dtype.kind in 'fc' and a.dtype.itemsize // (2 if a.dtype.kind == 'c' else 1) > 8:
+        ok = bool(np.all(a == b)) and bool(np.all(np.signbit(a.real) == np.signbit(b.real)))
+        if a.dtype.kind == 'c':
+            ok = ok and bool(np.all(np.signbit(a.imag) == np.signbit(b.imag)))
+        return ok
+    return np.ascontiguousarray(a).tobytes() == np.ascontiguousarray(b).tobytes()
+
+
+def _repeatable(call, arrays, what):
+    """results of SEPARATE calls with equal arguments are independent: ``call()`` builds fresh, equal arguments and converts them;
+    ``arrays(result)`` lists the result's ndarrays.  The first result is overwritten in place (what a caller does with
+    ``W[...] = W @ L``); the second call must return the same values as the first one did, in memory of its own."""
+    r1 = arrays(call())
+    keep = [np.array(a, copy=True) for a in r1]
+    for a in r1:
+        if isinstance(a, np.ndarray) and a.size and a.flags.writeable:
+            a.fill(7)
+    r2 = arrays(call())
+    if len(r2) != len(keep):
+        raise Violation('%s: a second call returns a different number of arrays' % what)
+    for k, (a2, a1, k1) in enumerate(zip(r2, r1, keep)):
+        a2 = np.asarray(a2)
+        if a2.shape != k1.shape or a2.dtype != k1.dtype or not _bits_equal(a2, k1):
+            raise Violation('%s: after the result of a first call was overwritten in place, a second call with equal arguments returns '
+                            'different values (result %d): %r, first call gave %r' % (what, k, a2.tolist(), k1.tolist()))
+        if isinstance(a1, np.ndarray) and a1.size and np.shares_memory(a2, a1):
+            raise Violation('%s: the results of two separate calls share memory' % what)
+
+
 def _is_utpm(y, what):
     if not isinstance(y, UTPM):
         raise Violation('%s returned %s, not a UTPM' % (what, type(y).__name__))
@@ -277,6 +308,13 @@ def prop_b2u_u2b(case, stats):
     Vbar = guard(autils.utpm2dirs, u)
     _same_bits(Vbar[..., 1:], V, 'utpm2dirs(base_and_dirs2utpm(x,V))[...,1:]')
 
+    def again():
+        a, b = _lay_case(case, x), _lay_case(case, V)
+        if case.get('as_list'):
+            a, b = a.tolist(), b.tolist()
+        return guard(autils.base_and_dirs2utpm, a, b)
+    _repeatable(again, lambda r: [r.data], 'base_and_dirs2utpm(x,V)')
+
 
 @st.composite
 def b2u_cases(draw):
@@ -344,7 +382,7 @@ def prop_u2b_b2u(case, stats):
     u2 = _is_utpm(guard(autils.base_and_dirs2utpm, x, V), 'base_and_dirs2utpm')
     _same_bits(u2.data, data, 'base_and_dirs2utpm(*utpm2base_and_dirs(u)).data')
     _no_alias(u2.data, [x, V], 'base_and_dirs2utpm(x,V).data')
-    if u.data.tobytes() != data.tobytes():
+    if not _bits_equal(np.asarray(u.data), data):
         raise Violation('utpm2base_and_dirs modified its argument')
     # ... so updating the extracted base point / directions in place (x += step) leaves u untouched, and the round trip from
     # copies taken before the update still reproduces u
@@ -352,7 +390,7 @@ def prop_u2b_b2u(case, stats):
     if x.flags.writeable and V.flags.writeable:
         x[...] = x + 1
         V[...] = V * 2 + 1
-    if u.data.tobytes() != data.tobytes():
+    if not _bits_equal(np.asarray(u.data), data):
         raise Violation('an in-place update of the arrays returned by utpm2base_and_dirs(u) changed u.data')
     u3 = _is_utpm(guard(autils.base_and_dirs2utpm, xc, Vc), 'base_and_dirs2utpm')
     _same_bits(u3.data, data, 'base_and_dirs2utpm(copies of x, V) after the in-place update')
@@ -361,8 +399,10 @@ def prop_u2b_b2u(case, stats):
     keep = (np.array(x4, copy=True), np.array(V4, copy=True))
     if u.data.flags.writeable:
         u.data[...] = 0
-        if np.asarray(x4).tobytes() != keep[0].tobytes() or np.asarray(V4).tobytes() != keep[1].tobytes():
+        if not _bits_equal(np.asarray(x4), keep[0]) or not _bits_equal(np.asarray(V4), keep[1]):
             raise Violation('overwriting u after utpm2base_and_dirs(u) changed the returned arrays')
+    _repeatable(lambda: guard(autils.utpm2base_and_dirs, UTPM(_lay_case(case, data))), lambda r: [np.asarray(r[0]), np.asarray(r[1])],
+                'utpm2base_and_dirs(u)')
 
 
 @st.composite
@@ -503,6 +543,9 @@ def prop_symvec(case, stats):
     now = (Ain.data if is_utpm else Ain).tobytes()
     if ref != now:
         raise Violation('symvec modified its argument')
+    arr = (lambda r: [r.data]) if is_utpm else (lambda r: [np.asarray(r)])
+    _repeatable(lambda: guard(symvec, wrap(A), uplo), arr, 'symvec(A,%r)' % uplo)
+    _repeatable(lambda: guard(vecsym, guard(symvec, wrap(A), uplo)), arr, 'vecsym(v)')
 
 
 def prop_vecsym(case, stats):
@@ -520,6 +563,8 @@ def prop_vecsym(case, stats):
         w = guard(symvec, A, u2)
         wd = _is_utpm(w, 'symvec').data if is_utpm else np.asarray(w)
         _same_bits(wd, v, 'symvec(vecsym(v),%r)' % u2, signed_zero=(u2 != 'F'))
+    _repeatable(lambda: guard(vecsym, UTPM(_lay_case(case, v)) if is_utpm else _lay_case(case, v)),
+                (lambda r: [r.data]) if is_utpm else (lambda r: [np.asarray(r)]), 'vecsym(v)')
 
 
 @st.composite
@@ -640,6 +685,7 @@ def _prop_container(case, stats, fn, name):
         key = idx if len(idx) > 1 else idx[0]
         e = _is_utpm(guard(lambda k: z[k], key), '%s(...)[%s]' % (name, idx))
         _same_bits(e.data, data[(slice(None), slice(None)) + idx], '%s(container)[%s].data' % (name, ','.join(map(str, idx))))
+    _repeatable(lambda: guard(fn, _build_container(case)), lambda r: [r.data], '%s(container)' % name)
 
 
 def prop_as_utpm(case, stats):
@@ -774,6 +820,7 @@ def prop_shift(case, stats):
             raise Violation('shift modified its argument')
         if np.shares_memory(y.data, X.data):
             raise Violation('shift(%d) returns memory shared with its argument' % s)
+    _repeatable(lambda: guard(plain, UTPM(_lay_case(case, x)), s), lambda r: [r.data], 'x.shift(%d)' % s)
 
 
 @st.composite
@@ -925,15 +972,17 @@ def prop_combine(case, stats):
             a = a[:dlow[(i, j)]]
             exp[(slice(dlow[(i, j)], None),) + reg[1:]] = 0
         return UTPM(a)
-    blocks = [[block(i, j) for j in range(len(cols))] for i in range(len(rows))]
-    if case['kind'] == 'objarr':
-        arg = np.empty((len(rows), len(cols)), dtype=object)
-        for i in range(len(rows)):
-            for j in range(len(cols)):
-                arg[i, j] = blocks[i][j]
-        arg = _lay_case(case, arg)
-    else:
-        arg = blocks
+
+    def build():
+        blocks = [[block(i, j) for j in range(len(cols))] for i in range(len(rows))]
+        if case['kind'] == 'objarr':
+            arg = np.empty((len(rows), len(cols)), dtype=object)
+            for i in range(len(rows)):
+                for j in range(len(cols)):
+                    arg[i, j] = blocks[i][j]
+            return _lay_case(case, arg), blocks
+        return blocks, blocks
+    arg, blocks = build()
     before = [[b.data.tobytes() for b in r] for r in blocks]
     X = _is_utpm(guard(UTPM.combine_blocks, arg), 'combine_blocks')
     _same_bits(X.data, exp, 'combine_blocks(blocks).data')
@@ -950,6 +999,7 @@ def prop_combine(case, stats):
             _same_bits(b.data[:Db], np.broadcast_to(bd, (Db,) + b.data.shape[1:]), what)
             if np.any(b.data[Db:] != 0):
                 raise Violation(what + ': coefficients beyond the %d coefficients of the block are not zero' % Db)
+    _repeatable(lambda: guard(UTPM.combine_blocks, build()[0]), lambda r: [r.data], 'combine_blocks(blocks)')
 
 
 @st.composite
@@ -1045,6 +1095,16 @@ def _check_piv(piv, what):
             raise Violation('%s piv2det(%s as %s) = %r, sign of the permutation is %d' % (what, list(map(int, piv)), form, sg, sign))
         if list(arg) != list(keep):
             raise Violation('%s: pivot vector modified' % what)
+        # the caller works in place on the permutation matrix (W[...] = W @ L): the next conversion of the same pivot
+        # sequence must again be the permutation matrix, in memory of its own
+        if isinstance(W, np.ndarray) and W.size and W.flags.writeable:
+            W.fill(7)
+        W2 = np.asarray(guard(autils.piv2mat, [int(p) for p in piv] if form == 'list' else np.array(piv, dtype=np.int32)))
+        if W2.shape != Pm.shape or not np.array_equal(W2, Pm):
+            raise Violation('%s piv2mat(%s) called again after the first result was overwritten in place returns\n%s\nexpected\n%s'
+                            % (what, list(map(int, piv)), W2, Pm))
+        if W.size and np.shares_memory(W, W2):
+            raise Violation('%s piv2mat(%s): the results of two separate calls share memory' % (what, list(map(int, piv))))
     return Pm, sign
 
 
@@ -1095,6 +1155,8 @@ def prop_piv_utpm(case, stats):
         raise Violation('UTPM.piv2mat/piv2det: higher-order coefficients of a constant permutation are not zero')
     if PIV.data.tobytes() != data.tobytes():
         raise Violation('UTPM.piv2mat/piv2det modified the pivot vector')
+    _repeatable(lambda: guard(UTPM.piv2mat, UTPM(data.copy())), lambda r: [r.data], 'UTPM.piv2mat(PIV)')
+    _repeatable(lambda: guard(UTPM.piv2det, UTPM(data.copy())), lambda r: [r.data], 'UTPM.piv2det(PIV)')
 
 
 @st.composite
